@@ -40,14 +40,23 @@ RECURSIVE MinOverSeq(_, _, _)
 MinOverSeq(F(_), s, i) == IF i = Len(s) THEN F(s[i]) ELSE Min2(F(s[i]), MinOverSeq(F, s, i + 1))
 
 (* Squared minimum-image length of the grid vector k (units 1/N), searching  *)
-(* images n in {-R..R}^3 around the centred representative.                  *)
+(* images n in {-R..R}^3 around the centred representative.  The minimum over *)
+(* the shift range is unrolled (no recursion) -- this is TLC's hot loop.      *)
+M1(F(_)) == Min2(F(-1), Min2(F(0), F(1)))
+M2(F(_)) == Min2(Min2(F(-2), F(-1)), Min2(F(0), Min2(F(1), F(2))))
+M3(F(_)) == Min2(Min2(F(-3), F(3)), M2(F))
 MinImageSq(G, k, N, R) ==
-  LET c == Center(k, N)
-      rs == RangeOf(R)
-      F3(a, b, z) == NormSq(G, <<c[1] + N * a, c[2] + N * b, c[3] + N * z>>)
-      F2(a, b) == LET H(z) == F3(a, b, z) IN MinOverSeq(H, rs, 1)
-      F1(a) == LET H(b) == F2(a, b) IN MinOverSeq(H, rs, 1)
-  IN MinOverSeq(F1, rs, 1)
+  LET c1 == CenterK(k[1], N)
+      c2 == CenterK(k[2], N)
+      c3 == CenterK(k[3], N)
+      g11 == G[1][1]  g22 == G[2][2]  g33 == G[3][3]
+      g12 == 2 * G[1][2]  g13 == 2 * G[1][3]  g23 == 2 * G[2][3]
+      F3(a, b, z) == LET x == c1 + N * a  y == c2 + N * b  w == c3 + N * z
+                     IN x * (g11 * x + g12 * y + g13 * w) + y * (g22 * y + g23 * w) + g33 * w * w
+  IN IF R = 0 THEN F3(0, 0, 0)
+     ELSE IF R = 1 THEN M1(LAMBDA a : M1(LAMBDA b : M1(LAMBDA z : F3(a, b, z))))
+     ELSE IF R = 2 THEN M2(LAMBDA a : M2(LAMBDA b : M2(LAMBDA z : F3(a, b, z))))
+     ELSE M3(LAMBDA a : M3(LAMBDA b : M3(LAMBDA z : F3(a, b, z))))
 
 (* the image vector realising the minimum (ties: any) *)
 MinImage(G, k, N, R) ==
